@@ -532,6 +532,136 @@ func durableCases() (out []string) {
 	return out
 }
 
+// ---------------------------------------------------------------- context histories
+
+// ctxHist is a sequence of publishes on ONE bus over one kind of store, each with its own
+// kind of context: 'b' Publish (background); 'o' PublishContext with a context of its own
+// that is cancelled as soon as the publish has returned (a request-scoped context);
+// 'v' PublishContext with a live value context; 'd' PublishContext with an
+// already-cancelled context (nothing is expected of that publish itself; it must not
+// disturb the others). Every publish whose context is live while it runs must be
+// recorded exactly once, before its handler runs, whatever happened to the contexts of
+// earlier publishes.
+type ctxHist struct {
+	Medium string `json:"medium"`
+	Kinds  string `json:"contexts"`
+}
+
+func ctxHistories(thorough bool) []ctxHist {
+	maxLen := 3
+	alpha := "bod"
+	if thorough {
+		maxLen = 4
+		alpha = "bovd"
+	}
+	var l []ctxHist
+	for _, m := range []string{"memory", "sqlite", "durable"} {
+		var rec func(cur string)
+		rec = func(cur string) {
+			if len(cur) > 0 {
+				l = append(l, ctxHist{m, cur})
+			}
+			if len(cur) == maxLen {
+				return
+			}
+			for _, a := range alpha {
+				rec(cur + string(a))
+			}
+		}
+		rec("")
+	}
+	return l
+}
+
+type ctxKey struct{}
+
+func runCtxHist(ch ctxHist) (out []string) {
+	res := vrt.Run(vrt.Config{}, func() {
+		out = runCtxHistBody(ch)
+		vrt.Join()
+	})
+	if res.Status != vrt.StatusOK {
+		out = append(out, "publishing blocked for ever or crashed: "+res.Status.String())
+	}
+	return out
+}
+
+func runCtxHistBody(ch ctxHist) (out []string) {
+	bad := func(f string, a ...any) { out = append(out, fmt.Sprintf(f, a...)) }
+	med, err := stores.NewMedium(ch.Medium)
+	if err != nil {
+		vrt.MachineryFault("%v", err)
+	}
+	defer med.Destroy()
+	hd, err := med.Open()
+	if err != nil {
+		vrt.MachineryFault("%v", err)
+	}
+	defer hd.Close()
+	perr := 0
+	bus := eventbus.New(eventbus.WithStore(hd.Store), eventbus.WithPersistenceErrorHandler(func(any, reflect.Type, error) { perr++ }))
+	count := func(id int) int {
+		n := 0
+		cur := eventbus.OffsetOldest
+		for k := 0; k < 64; k++ {
+			evs, next, err := hd.Store.Read(context.Background(), cur, 0)
+			if err != nil {
+				bad("store read failed: %v", err)
+				return -1
+			}
+			if len(evs) == 0 {
+				break
+			}
+			for _, e := range evs {
+				var a EvA
+				if json.Unmarshal(e.Data, &a) == nil && a.ID == id {
+					n++
+				}
+			}
+			cur = next
+		}
+		return n
+	}
+	inHandler := map[int]int{}
+	ran := map[int]int{}
+	eventbus.Subscribe(bus, func(e EvA) { ran[e.ID]++; inHandler[e.ID] = count(e.ID) })
+	for i, k := range ch.Kinds {
+		id := i + 1
+		before := perr
+		switch k {
+		case 'b':
+			eventbus.Publish(bus, EvA{ID: id})
+		case 'o':
+			ctx, cancel := context.WithCancel(context.Background())
+			eventbus.PublishContext(bus, ctx, EvA{ID: id})
+			cancel()
+		case 'v':
+			eventbus.PublishContext(bus, context.WithValue(context.Background(), ctxKey{}, id), EvA{ID: id})
+		case 'd':
+			ctx, cancel := context.WithCancel(context.Background())
+			cancel()
+			eventbus.PublishContext(bus, ctx, EvA{ID: id})
+			if n := count(id); n > 1 {
+				bad("a publish with a cancelled context is recorded %d times", n)
+			}
+			continue
+		}
+		what := map[rune]string{'b': "Publish", 'o': "PublishContext with a context cancelled after the publish returned", 'v': "PublishContext with a live context"}[k]
+		if n := count(id); n != 1 {
+			bad("%s store: a %s (live while it ran) is recorded %d times (want 1), after earlier publishes with contexts %q", ch.Medium, what, n, ch.Kinds[:i])
+		}
+		if ran[id] != 1 {
+			bad("%s store: the handler of a %s ran %d times", ch.Medium, what, ran[id])
+		} else if inHandler[id] != 1 {
+			bad("%s store: the handler of a %s saw its event recorded %d times (want 1: recorded before delivery)", ch.Medium, what, inHandler[id])
+		}
+		if perr != before {
+			bad("%s store: persistence error reported for a %s although nothing failed", ch.Medium, what)
+		}
+	}
+	return out
+}
+
 // ---------------------------------------------------------------- schedules
 
 type cinst struct {
@@ -661,6 +791,20 @@ func run(c *h.Check) {
 			c.Violate("configuration", stripNum(v)+" ["+cf.shape()+"]", cf.String()+"\n"+v, map[string]any{"cfg": cf})
 		}
 	}
+	hists := ctxHistories(c.Thorough())
+	for i, ch := range hists {
+		if !c.Mine(i) {
+			continue
+		}
+		c.Count("evaluations", 1)
+		c.Count("nontrivial", 1)
+		if i%40 == 7 {
+			c.Sample(ch)
+		}
+		for _, v := range runCtxHist(ch) {
+			c.Violate("context-history", stripAfter(v), fmt.Sprintf("%+v\n%s", ch, v), map[string]any{"ctxhist": ch})
+		}
+	}
 	vals := values()
 	for i, v := range vals {
 		if !c.Mine(i) {
@@ -682,7 +826,7 @@ func run(c *h.Check) {
 		}
 	}
 	if c.Worker == 0 {
-		c.Note(fmt.Sprintf("%d configurations, %d values", len(cfgs), len(vals)))
+		c.Note(fmt.Sprintf("%d configurations, %d context histories, %d values", len(cfgs), len(hists), len(vals)))
 		c.Count("evaluations", 2)
 		for _, m := range sequenceCases() {
 			c.Violate("sequence", "sequence on one bus: recorded type differs from the event's type name", m, map[string]any{"sequence": true})
@@ -701,6 +845,14 @@ func run(c *h.Check) {
 	for _, sc := range slowScenarios() {
 		c.Explore(sc, bound, 20000, false)
 	}
+}
+
+// stripAfter drops the history-specific tail of a context-history message for its signature.
+func stripAfter(s string) string {
+	if i := strings.Index(s, ", after earlier publishes"); i > 0 {
+		return s[:i]
+	}
+	return s
 }
 
 func stripNum(s string) string {
@@ -725,10 +877,11 @@ func replay(c *h.Check, rf *h.ReplayFile) []vrt.Violation {
 		}
 	}
 	var ops struct {
-		Cfg      *cfg   `json:"cfg"`
-		Value    string `json:"value"`
-		Sequence bool   `json:"sequence"`
-		Durable  bool   `json:"durable"`
+		Cfg      *cfg     `json:"cfg"`
+		Value    string   `json:"value"`
+		Sequence bool     `json:"sequence"`
+		Durable  bool     `json:"durable"`
+		CtxHist  *ctxHist `json:"ctxhist"`
 	}
 	json.Unmarshal(rf.Ops, &ops)
 	if ops.Sequence {
@@ -739,6 +892,11 @@ func replay(c *h.Check, rf *h.ReplayFile) []vrt.Violation {
 	if ops.Durable {
 		for _, m := range durableCases() {
 			vs = append(vs, vrt.Violation{Kind: "durable", Sig: m, Detail: m})
+		}
+	}
+	if ops.CtxHist != nil {
+		for _, v := range runCtxHist(*ops.CtxHist) {
+			vs = append(vs, vrt.Violation{Kind: "context-history", Sig: stripAfter(v), Detail: v})
 		}
 	}
 	if ops.Cfg != nil {
@@ -765,6 +923,6 @@ func main() {
 		"values without a JSON encoding are outside this property (C13)",
 		"concurrent publishers: MemoryStore and the bus's store lock are instrumented, so their operations are scheduling points",
 	}, run, replay, func(tier string) map[string]any {
-		return map[string]any{"rule": "every permutation of every subset (size<=3 quick / <=4 thorough) of bus options containing WithStore, plus legacy setters on five option orders; every value of the grammar published on a non-empty log; schedules of 2-3 concurrent publishers (sync and async handler) up to the preemption bound. All cases distinct by construction; each is non-trivial (persists at least one event)"}
+		return map[string]any{"rule": "every permutation of every subset (size<=3 quick / <=4 thorough) of bus options containing WithStore, plus legacy setters on five option orders; every value of the grammar published on a non-empty log; every sequence (length<=3 quick / <=4 thorough) of publishes with {background, own context cancelled after the publish, live value context, already-cancelled} contexts on one bus over {memory, sqlite, durable-streams}; schedules of 2-3 concurrent publishers (sync and async handler) up to the preemption bound. All cases distinct by construction; each is non-trivial (persists at least one event)"}
 	})
 }
